@@ -221,7 +221,8 @@ func H_C18_complete(v *V) {
 		pending = true
 		argv = append(argv, []string{"--file", "-f"}[v.Choice(2)])
 	}
-	P := v.String(v.Shape("lp"))
+	// the partial word: 0..2 leading dashes (shape) followed by symbolic bytes
+	P := []string{"", "-", "--"}[v.Shape("dash")] + v.String(v.Shape("lp"))
 	want, _, afterRest, ok := c18Ref(typed, pending, P)
 	if v.Known("c18_command_after_argument") && afterRest {
 		v.Assume(false)
